@@ -566,7 +566,8 @@ fn curve_line_oracle<S: Fl>(
     ts: &[f64],
     // when the query is against a segment: its endpoints (crossings must be well inside)
     seg: Option<(V2, V2)>,
-    sound_tol_scale: f64,
+    // absolute distance allowed between a reported point and the line ("within rounding")
+    sound_tol: f64,
     param_tol: f64,
 ) {
     let nl = norm(lv);
@@ -574,14 +575,16 @@ fn curve_line_oracle<S: Fl>(
         orc.check(ts.is_empty(), &format!("{}/zero-line-none", site), class, || format!("zero line vector, got {:?}", ts));
         return;
     }
-    let m = ctrl.iter().fold(0.0f64, |m, p| m.max(p.0.abs()).max(p.1.abs())).max(lp.0.abs()).max(lp.1.abs()).max(nl).max(1e-30);
     let f = |t: f64| cross(lv, sub(bez(ctrl, t), lp)) / nl;
     let plen = polygon_len(ctrl).max(1e-30);
     // soundness: in range and on the line (and within the segment)
     for &t in ts {
         orc.check((0.0..=1.0).contains(&t), &format!("{}/range", site), class, || format!("t={}", t));
         let e = f(t).abs();
-        let tol = sound_tol_scale * m;
+        let tol = sound_tol;
+        if std::env::var("C12_STATS").is_ok() {
+            eprintln!("STAT {} {} {:e}", site, class, e / tol);
+        }
         orc.check(e <= tol, &format!("{}/on-line", site), class, || format!("t={} distance to line {:e} tol {:e}", t, e, tol));
         if let Some((s0, s1)) = seg {
             let p = bez(ctrl, t);
@@ -777,13 +780,89 @@ fn gen_cubic<S: Fl>(g: Gen, rng: &mut Rng) -> CubicBezierSegment<S> {
     CubicBezierSegment { from: pts[0], ctrl1: pts[1], ctrl2: pts[2], to: pts[3] }
 }
 
-/// witness class of the `epsilon_for` table: which arm the polynomial's magnitude selects
-fn eps_class(m: f64, bits: u32) -> &'static str {
-    if bits == 32 && (4096.0..5096.0).contains(&m.abs().trunc()) {
-        "eps-table-gap"
+/// lyon's `Scalar::epsilon_for`, re-stated (table of crates/geom/src/lib.rs)
+fn lyon_eps_for(m: f64, bits: u32) -> f64 {
+    let n = m.abs().trunc();
+    if bits == 32 {
+        if n <= 7.0 {
+            1e-5
+        } else if n <= 1023.0 {
+            1e-3
+        } else if n <= 4095.0 {
+            1e-2
+        } else if (5096.0..=65535.0).contains(&n) {
+            1e-1
+        } else if (65536.0..=8_388_607.0).contains(&n) {
+            0.5
+        } else {
+            1.0
+        }
+    } else if n <= 65535.0 {
+        1e-8
+    } else if n <= 8_388_607.0 {
+        1e-5
+    } else if n <= 4_294_967_295.0 {
+        1e-3
     } else {
-        "generic"
+        1e-1
     }
+}
+
+/// Witness class of a cubic polynomial (computed from the input coefficients only) and a bound
+/// `R` on the magnitude of the quantities Cardano's formulas go through (the absolute error of a
+/// computed root is a few ulps of `R`).
+///  * `cardano-double-root-eps`: one real root (discriminant clearly positive) but the
+///    "repeated root" test `|s - t| < epsilon` passes because `epsilon` is taken from the
+///    magnitude of the raw coefficients while `s`, `t` belong to the normalised polynomial;
+///  * `eps-table-gap`: the magnitude falls in 4096..=5095 where the f32 table of
+///    `epsilon_for` has no arm and yields 1.0.
+fn cubic_class(co: [f64; 4], bits: u32) -> (&'static str, f64) {
+    let [a, b, c, d] = co;
+    let m = a.abs().max(b.abs()).max(c.abs()).max(d.abs());
+    let eps = lyon_eps_for(m, bits);
+    let gap = bits == 32 && (4096.0..5096.0).contains(&m.trunc());
+    let base = if gap { "eps-table-gap" } else { "generic" };
+    if a.abs() < eps {
+        if b.abs() < eps {
+            if c.abs() < eps {
+                return (base, 0.0);
+            }
+            return (base, (d / c).abs());
+        }
+        return (base, (c / b).abs().max((d / b).abs().sqrt()));
+    }
+    let (bn, cn, dn) = (b / a, c / a, d / a);
+    let r = bn.abs().max(cn.abs().sqrt()).max(dn.abs().cbrt());
+    let d0 = (3.0 * cn - bn * bn) / 9.0;
+    let d1 = (9.0 * bn * cn - 27.0 * dn - 2.0 * bn * bn * bn) / 54.0;
+    let d01 = d0 * d0 * d0 + d1 * d1;
+    if d01 >= 0.0 {
+        let s = (d1 + d01.sqrt()).cbrt();
+        let t = (d1 - d01.sqrt()).cbrt();
+        if (s - t).abs() < eps && (s + t).abs() >= eps && (s - t).abs() > 1e-3 * (s.abs() + t.abs()) {
+            return ("cardano-double-root-eps", r);
+        }
+    }
+    (base, r)
+}
+
+fn co64<S: Fl>(co: &[S; 4]) -> [f64; 4] {
+    [co[0].f(), co[1].f(), co[2].f(), co[3].f()]
+}
+
+/// class of a cubic × line query
+fn cubicline_class<S: Fl>(c: &CubicBezierSegment<S>, l: &Line<S>) -> (&'static str, f64) {
+    if l.vector.square_length() < <S as lyon_geom::Scalar>::EPSILON {
+        // lyon returns nothing for a line whose direction vector is shorter than sqrt(EPSILON)
+        return ("short-line-vector", 0.0);
+    }
+    cubic_class(co64(&cubic_line_coeffs(c, l)), S::BITS)
+}
+
+/// "within rounding" for a root-finder based query: 512 ulps of the quantities involved
+fn curve_tol<S: Fl>(ctrl: &[V2], lp: V2, r: f64) -> f64 {
+    let m = ctrl.iter().fold(0.0f64, |m, p| m.max(p.0.abs()).max(p.1.abs())).max(lp.0.abs()).max(lp.1.abs());
+    512.0 * S::EPS * ((1.0 + r) * polygon_len(ctrl) + m)
 }
 
 fn cubic_line_coeffs<S: Fl>(c: &CubicBezierSegment<S>, l: &Line<S>) -> [S; 4] {
